@@ -181,6 +181,13 @@ Inductive event :=
 | EvSyncFinished (i : nat) | EvPushForward (i : nat)
 (* the command on the destination Redis; reply delivered to the client *)
 | EvExecDst (i : nat) | EvReply (i : nat)
+(* a multi-key command (multi-key EVAL): proxy/executor.rs handle_multi_key_eval_cmd first runs ensure_keys_imported
+   (one `EXISTS key` per key through the importing handler = ordinary pull-path Read operations of this model), then
+   sends the command itself, which is routed (push path) by its FIRST key only.  For every OTHER key k of the command
+   its effect on k is an operation of k's model that reaches the destination Redis without a route of its own: it is
+   forwarded at a moment at which k is imported (present on the destination or absent on the source) - the stable
+   postcondition of ensure_keys_imported *)
+| EvEnsured (i : nat)
 (* scanner *)
 | EvScanSkip | EvScanLock | EvScanPttl | EvScanDump | EvScanRestore | EvScanDel
 (* handshake and commit *)
@@ -258,6 +265,9 @@ Definition op_step (g : glob) (i : nat) (o : opst) (e : event) : option (glob * 
   | EvExecDst _, PFwd =>
       Some (set_dst g (exec_kind k RESTORE_NO_EXPIRE (dst g)), set_pc o (PDone (ROk (val (dst g)))))
   | EvReply _, PDone r => Some (g, set_pc o (PReplied r))
+  | EvEnsured _, PAtDst =>
+      if dph_serving (dph g) && negb (committed g) && (negb (is_none (dst g)) || is_none (src g))
+      then Some (g, set_pc o PFwd) else None
   | _, _ => None
   end.
 
@@ -275,7 +285,7 @@ Definition ev_op (e : event) : option nat :=
   | EvSendExists i | EvExistsExec i | EvPullLock i _ | EvDumpExec i | EvPttlExec i | EvRestoreExec i
   | EvPullUnlock i | EvPullDel i | EvPushLock i _ | EvPushRetry i _ | EvSyncLock i _ | EvSyncNotFound i
   | EvFastPttl i | EvFastDump i | EvFastRestore i | EvFastDel i | EvSlowPttl i | EvSlowDump i | EvSlowRestore i
-  | EvSlowDel i | EvSyncFinished i | EvPushForward i | EvExecDst i | EvReply i => Some i
+  | EvSlowDel i | EvSyncFinished i | EvPushForward i | EvExecDst i | EvReply i | EvEnsured i => Some i
   | _ => None
   end.
 
@@ -380,6 +390,23 @@ Fixpoint all_steps (f : state -> event -> bool) (s : state) (evs : list event) :
 Definition c11_ok := all_steps c11_step.
 Definition commit_ok := all_steps commit_step.
 Definition classified_ok := all_steps (fun _ e => classified_step e).
+(* a multi-key command that DELETES a key other than its first key is pushed (UMSYNC) for its first key only: for the other
+   keys nothing orders it against a transfer that already holds a dump of the key.  The theorems cover such a deletion only
+   when the source copy is gone and no transfer (pull, push, scanner) holds a dumped value of the key at that moment *)
+Definition scan_holding (s : scanpos) : bool := match s with SRestore _ _ => true | _ => false end.
+Definition ensured_step (s : state) (e : event) : bool :=
+  match e with
+  | EvEnsured i =>
+      match nth_error (ops s) i with
+      | Some o => match ckind (ocmd o) with
+                  | KDelete => is_none (src (gl s)) && no_holder (ops s) && negb (scan_holding (scan (gl s)))
+                  | _ => true
+                  end
+      | None => true
+      end
+  | _ => true
+  end.
+Definition ensured_ok := all_steps ensured_step.
 
 (* ---------- client-visible history with linearization points ---------- *)
 Inductive hevent :=
